@@ -108,7 +108,11 @@ def _state(c, model):
     if c["key"] not in model["state"]:
         return False
     x, y, op = model["state"][c["key"]], c["val"], c.get("op", "eq")
-    return {"eq": x == y, "ne": x != y, "gte": x >= y, "gt": x > y, "lte": x <= y, "lt": x < y}[op]
+    if op == "eq":
+        return x == y
+    if op == "ne":
+        return x != y
+    return {"gte": x >= y, "gt": x > y, "lte": x <= y, "lt": x < y}[op]
 
 
 def ev_di(c: dict, it: dict, model: dict) -> bool:
@@ -378,13 +382,19 @@ def docs(draw):
     return d
 
 
+def _state_cond(d, keys):
+    val = d(st.sampled_from(["v", "w", 0, "", False, 3, 2]))
+    ops = ["eq", "ne"]
+    return {"type": "processing_state", "key": d(st.sampled_from(keys)), "val": val, "op": d(st.sampled_from(ops))}
+
+
 RULE_CONDS = [
     lambda d: {"type": "logsource", "category": "proc"}, lambda d: {"type": "logsource", "product": d(st.sampled_from(["win", "linux"]))},
     lambda d: {"type": "logsource", "category": "proc", "product": "win"},
     lambda d: {"type": "contains_field", "field": d(st.sampled_from(FIELDS + ["P_f"]))},
     lambda d: {"type": "contains_detection_item", "field": d(st.sampled_from(FIELDS + ["P_g"])), "value": d(st.sampled_from(["a", 5, "5", "b*", 7]))},
     lambda d: {"type": "processing_item_applied", "processing_item_id": d(st.sampled_from(["ren", "st", "nope"]))},
-    lambda d: {"type": "processing_state", "key": d(st.sampled_from(["k", "zz"])), "val": d(st.sampled_from(["v", "w"])), "op": d(st.sampled_from(["eq", "ne"]))},
+    lambda d: _state_cond(d, ["k", "k", "zz"]),
     lambda d: {"type": "is_sigma_rule"}, lambda d: {"type": "is_sigma_correlation_rule"},
     lambda d: {"type": "rule_attribute", "attribute": "level", "value": d(st.sampled_from(LEVELS)), "op": d(st.sampled_from(["eq", "ne", "gte", "gt", "lte", "lt"]))},
     lambda d: {"type": "rule_attribute", "attribute": "status", "value": d(st.sampled_from(STATUSES)), "op": d(st.sampled_from(["eq", "gte", "lt"]))},
@@ -399,7 +409,7 @@ DI_CONDS = [
     lambda d: {"type": "contains_wildcard", "cond": d(st.sampled_from(["any", "all"]))},
     lambda d: {"type": "is_null", "cond": d(st.sampled_from(["any", "all"]))},
     lambda d: {"type": "processing_item_applied", "processing_item_id": d(st.sampled_from(["ren", "st", "nope"]))},
-    lambda d: {"type": "processing_state", "key": "k", "val": d(st.sampled_from(["v", "w"])), "op": d(st.sampled_from(["eq", "ne"]))},
+    lambda d: _state_cond(d, ["k"]),
 ]
 FN_CONDS = [
     lambda d: {"type": "include_fields", "fields": d(st.lists(st.sampled_from(FIELDS + ["P_f", "P_g", "zz"]), min_size=1, max_size=3, unique=True))},
@@ -407,7 +417,7 @@ FN_CONDS = [
     lambda d: {"type": "include_fields", "mode": "re", "fields": d(st.lists(st.sampled_from(["^P_", "o", "^[fg]$", "notes?", ".*h"]), min_size=1, max_size=2, unique=True))},
     lambda d: {"type": "exclude_fields", "mode": "re", "fields": d(st.lists(st.sampled_from(["^P_", "o", "^[fg]$"]), min_size=1, max_size=2, unique=True))},
     lambda d: {"type": "processing_item_applied", "processing_item_id": d(st.sampled_from(["ren", "nope"]))},
-    lambda d: {"type": "processing_state", "key": "k", "val": "v", "op": d(st.sampled_from(["eq", "ne"]))},
+    lambda d: _state_cond(d, ["k"]),
 ]
 COND_NAMES = ["c1", "c2", "notc", "x-1"]
 
@@ -445,7 +455,7 @@ def cases(draw):
     doc = draw(docs())
     pre = []
     if draw(st.booleans()):
-        pre.append({"id": "st", "type": "set_state", "key": "k", "val": "v",
+        pre.append({"id": "st", "type": "set_state", "key": "k", "val": draw(st.sampled_from(["v", "v", 0, "", False, 3])),
                     "rule_conditions": [{"type": "logsource", "product": draw(st.sampled_from(["win", "linux"]))}]})
     if draw(st.booleans()):
         pre.append({"id": "ren", "type": "field_name_prefix", "prefix": "P_",
